@@ -27,16 +27,19 @@ VARIABLES
   height,  \* chain height known to the plugin
   panics,  \* number of panics observed in plugin code
   iss,     \* RPC calls issued by the plugin in the LAST step (set of call records)
+  last,    \* the environment event of the LAST step (history; never read by a guard)
   obs      \* observer bookkeeping per hash, see ObsInit
-nodeVars == <<cfg, htlc, parts, pay, ds, att, now, height, panics, iss, obs>>
+nodeVars == <<cfg, htlc, parts, pay, ds, att, now, height, panics, iss, last, obs>>
+\* what distinguishes states: everything but the two history variables
+nodeView == <<cfg, htlc, parts, pay, ds, att, now, height, panics, obs>>
 
-Hashes == {"h1", "h2", "h3", "h4", "h5", "h6"}
+CONSTANT Hashes   \* names of the payment hashes in play ("h1", "h2", ...)
 
 NoResp == [r |-> "none", key |-> "", code |-> ""]
 DsAbsent == [st |-> "absent", a |-> 0, t |-> 0, gen |-> 0, key |-> ""]
 
-Max(a, b) == IF a >= b THEN a ELSE b
-Min(a, b) == IF a <= b THEN a ELSE b
+Hi(a, b) == IF a >= b THEN a ELSE b
+Lo(a, b) == IF a <= b THEN a ELSE b
 
 ---------------------------------------------------------------------------
 (* Ground-truth abbreviations *)
@@ -60,7 +63,7 @@ SumAmt(hf, S) == IF S = {} THEN 0
                  ELSE LET i == CHOOSE x \in S : TRUE IN hf[i].amt + SumAmt(hf, S \ {i})
 RECURSIVE MinExp(_, _)
 MinExp(hf, S) == IF S = {} THEN 1000000
-                 ELSE LET i == CHOOSE x \in S : TRUE IN Min(hf[i].exp, MinExp(hf, S \ {i}))
+                 ELSE LET i == CHOOSE x \in S : TRUE IN Lo(hf[i].exp, MinExp(hf, S \ {i}))
 
 \* the member of S that arrived first
 First(hf, S) == CHOOSE i \in S : \A j \in S : hf[i].ord <= hf[j].ord
@@ -78,7 +81,7 @@ DsVerdict(h, w) ==
   ELSE IF w.mode = "mr" /\ ~present THEN [ok |-> FALSE, gen |-> 0]
   ELSE IF w.gen # -1 /\ ~present THEN [ok |-> FALSE, gen |-> 0]
   ELSE IF w.gen # -1 /\ w.gen # DsCurGen(h, w) THEN [ok |-> FALSE, gen |-> 0]
-  ELSE [ok |-> TRUE, gen |-> IF present THEN DsCurGen(h, w) + 1 ELSE 0]
+  ELSE [ok |-> TRUE, gen |-> IF present /\ w.key = "state" THEN DsCurGen(h, w) + 1 ELSE 0]
 
 \* the write is applied iff the verdict is ok and the fault is not "reject"
 DsApplied(h, w, fault) == DsVerdict(h, w).ok /\ fault # "reject"
@@ -141,10 +144,11 @@ ExecEnabled(c) == c.kind = "wait" /\ c.part # 0 => parts[c.part].st # "pending"
 (*  out       number of RPC calls of the plugin for h still outstanding     *)
 (*  readAt    when the stored state was last delivered as absent/free; -1   *)
 (*  paid      a pay was issued since readAt was set                         *)
+(*  rej       some HTLC of the current set triggered a policy rejection     *)
 (*  firstBad  ids of HTLCs that opened a set and fail the policy tests      *)
 
 ObsInit == [h \in Hashes |-> [bound |-> -1, doomed |-> FALSE, idleSince |-> -1, out |-> 0,
-                              readAt |-> -1, paid |-> FALSE]]
+                              readAt |-> -1, paid |-> FALSE, rej |-> FALSE]]
 
 ---------------------------------------------------------------------------
 NodeInit(c) ==
@@ -157,7 +161,23 @@ NodeInit(c) ==
   /\ height = c.h0
   /\ panics = 0
   /\ iss = {}
+  /\ last = [t |-> "init"]
   /\ obs = ObsInit
+
+\* the same as a next-state assignment (a new run starts in a recorded trace)
+NodeReset(c) ==
+  /\ cfg' = c
+  /\ parts' = <<>>
+  /\ pay' = [h \in Hashes |-> [iss |-> 0, run |-> 0]]
+  /\ ds' = [h \in Hashes |-> DsAbsent]
+  /\ att' = [h \in Hashes |-> <<>>]
+  /\ now' = 0
+  /\ height' = c.h0
+  /\ panics' = 0
+  /\ iss' = {}
+  /\ last' = [t |-> "reset"]
+  /\ obs' = ObsInit
+  /\ htlc' = <<>>
 
 \* Does HTLC record r (arriving) trigger a rejection of the set it joins?
 \* conflicting invoice/amount, expiry too low, declared total too low.
@@ -210,7 +230,7 @@ ObsAfter(ev, hpost, re) ==
         nIss == Cardinality({c \in issues : c.hash = h})
         fin  == (IF ev.t = "deliver" /\ ev.c.hash = h THEN 1 ELSE 0)
                 + Cardinality({d \in re.drops : d.c.hash = h})
-        out1 == IF crash THEN 0 ELSE Max(0, o.out + nIss - fin)
+        out1 == IF crash THEN 0 ELSE Hi(0, o.out + nIss - fin)
         heldPost == HeldIn(hpost, h)
         \* rejection while not fully funded (C04 second sentence, C07 rejection clause)
         arr == ev.t = "htlc" /\ ev.rec.cls = "tramp" /\ ev.rec.key = h
@@ -219,11 +239,13 @@ ObsAfter(ev, hpost, re) ==
                  ELSE o.doomed
         w1 == {c \in issues : c.hash = h /\ c.kind = "ds" /\ c.key = "state" /\ c.val.st = "pending"}
         bound1 == IF w1 # {} /\ heldPost # {}
-                  THEN Max(0, MinExp(hpost, heldPost) - height - cfg.sdelta)
+                  THEN Hi(0, MinExp(hpost, heldPost) - height - cfg.sdelta)
                   ELSE IF crash THEN -1 ELSE o.bound
         readNow == ev.t = "deliver" /\ ev.c.kind = "listds" /\ ev.c.hash = h /\ ev.c.key = "state"
                    /\ ev.res.r = "ok" /\ ev.res.st \in {"absent", "free"}
-        readAt1 == IF crash THEN -1 ELSE IF readNow THEN now ELSE
+        rej1 == IF crash \/ heldPost = {} THEN FALSE
+                ELSE IF arr /\ Rejects(ev.rec, htlc) THEN TRUE ELSE o.rej
+        readAt1 == IF crash \/ heldPost = {} THEN -1 ELSE IF readNow THEN now ELSE
                    IF ev.t = "deliver" /\ ev.c.kind = "listds" /\ ev.c.hash = h THEN -1 ELSE o.readAt
         paid1 == IF readNow \/ crash THEN FALSE
                  ELSE IF \E c \in issues : c.kind = "pay" /\ c.hash = h THEN TRUE ELSE o.paid
@@ -231,7 +253,7 @@ ObsAfter(ev, hpost, re) ==
         nowPost == IF ev.t = "tick" THEN now + 1 ELSE now
         idle1 == IF ~idle THEN -1 ELSE IF o.idleSince = -1 THEN nowPost ELSE o.idleSince
     IN [bound |-> bound1, doomed |-> doom1, idleSince |-> idle1, out |-> out1,
-        readAt |-> readAt1, paid |-> paid1]]
+        readAt |-> readAt1, paid |-> paid1, rej |-> rej1]]
 
 NodeStep(ev, re) ==
   LET answers == re.answers
@@ -250,18 +272,19 @@ NodeStep(ev, re) ==
   /\ pay' = [h \in Hashes |->
                LET p0 == IF ev.t = "crash" THEN [iss |-> 0, run |-> 0]
                          ELSE IF ev.t = "exec" /\ ev.c.kind = "pay" /\ ev.c.hash = h
-                              THEN [iss |-> Max(0, pay[h].iss - 1), run |-> pay[h].run + 1]
+                              THEN [iss |-> Hi(0, pay[h].iss - 1), run |-> pay[h].run + 1]
                          ELSE IF ev.t = "payreturn" /\ ev.hash = h
-                              THEN [pay[h] EXCEPT !.run = Max(0, @ - 1)]
+                              THEN [pay[h] EXCEPT !.run = Hi(0, @ - 1)]
                          ELSE pay[h]
                    dIss == Cardinality({d \in re.drops : d.c.kind = "pay" /\ d.c.hash = h /\ d.cst = "issued"})
-               IN [p0 EXCEPT !.iss = Max(0, @ - dIss) + Cardinality({c \in issues : c.kind = "pay" /\ c.hash = h})]]
+               IN [p0 EXCEPT !.iss = Hi(0, @ - dIss) + Cardinality({c \in issues : c.kind = "pay" /\ c.hash = h})]]
   /\ ds'  = IF ev.t = "exec" /\ ev.c.kind = "ds" /\ ev.c.hash \in Hashes THEN DsAfter(ev.c.hash, ev.c, ev.fault) ELSE ds
   /\ att' = IF ev.t = "exec" /\ ev.c.kind = "ds" /\ ev.c.hash \in Hashes THEN AttAfter(ev.c.hash, ev.c, ev.fault) ELSE att
   /\ now' = IF ev.t = "tick" THEN now + 1 ELSE now
   /\ height' = IF ev.t = "height" THEN ev.h ELSE height
   /\ panics' = panics + re.npanic
   /\ iss' = issues
+  /\ last' = ev
   /\ obs' = ObsAfter(ev, hpost, re)
 
 =============================================================================
